@@ -28,7 +28,7 @@ ASSUMPTIONS = [
 TRUSTED = ["stdlib argparse and ast.literal_eval", "harness rendering of structured tokens to command-line strings "
            "(re-checked against the model's Tok.render in op merge.tok)"]
 EXHAUSTIVE = {"quick": False, "thorough": False}
-THOROUGH_ROUNDS = 5   # thorough tier: this many generator passes with derived PRNG states (vcheck)
+THOROUGH_ROUNDS = 2   # thorough tier: this many generator passes with derived PRNG states (vcheck)
 MANIFEST = {
     "text": ("Proof (full for the modelled configurations; one open finding outside them). Lean theorems over the model of the "
              "reused FieldWrapper, for every n >= 2 (no bound) and every field type (scalar, List, Tuple): option absent -> "
